@@ -38,6 +38,9 @@ def main():
         if "<repo-root>" in meta["demo_cmd"]:
             script = meta["demo_cmd"].split("#")[0].split()[1]          # e.g. demo/run_demo_m1.sh
             meta["demo_cmd"] = f"sh {os.path.join(src, script)} {WT}"
+        if "cp demo/" in meta["demo_cmd"] and "cargo " in meta["demo_cmd"]:
+            # the demonstration is copied to demo_dest by this tool
+            meta["demo_cmd"] = meta["demo_cmd"][meta["demo_cmd"].index("cargo "):]
         ran = []
         rc0, out0 = sh(meta["demo_cmd"]); ran.append(("clean tree: " + meta["demo_cmd"], rc0))
         rc1, out1 = sh(f"git apply {os.path.join(src, 'patch.diff')}"); ran.append(("git apply patch.diff", rc1))
